@@ -7,6 +7,7 @@ import (
 	"go/constant"
 	"go/token"
 	"go/types"
+	"regexp"
 	"sort"
 	"strings"
 
@@ -57,6 +58,8 @@ type exitRec struct {
 	n       *node
 	st      *State
 	results []Val
+	block   *ssa.BasicBlock
+	idx     int
 }
 
 type frame struct {
@@ -110,6 +113,7 @@ type gen struct {
 
 	inTypeInv   bool
 	localCell   map[string]string
+	fieldRefs   map[string]*fieldAccess
 	known       map[string]Finding
 	canaryDone  bool
 	lockSiteOrd map[interface{}]int
@@ -511,6 +515,10 @@ func (g *gen) havocModifies(n *node, fs *FuncSpec, e *env, st *State) {
 			g.havocHeap(n, st)
 			continue
 		}
+		if ml.All == "pointee" {
+			g.havocPointee(n, e, st, ml.E, fs.Key)
+			continue
+		}
 		if strings.HasPrefix(ml.All, "cells(") {
 			if name, srt, ok := g.cellsVar(ml.All, fs.PkgPath, fs.Imports); ok {
 				g.svFresh(st, name, srt)
@@ -627,6 +635,18 @@ func (g *gen) havocLoc(n *node, e *env, st *State, loc Expr, who string) {
 		}
 		// x[*] : all elements of a slice -> havoc the element cell/field maps at that base
 	case *ESel:
+		if ref, et, ok := ee.trAddr(x.X); ok {
+			// field of an embedded struct value
+			name, srt, ok := g.fieldVar(et, x.Sel)
+			if !ok {
+				g.errorf("%s: modifies %s: unknown field", who, loc)
+				return
+			}
+			cur := g.svGet(st, name, srt)
+			fv := g.c.fresh(name+".elt", arrayElemSort(srt))
+			g.svAssign(n, st, name, srt, app("store", cur, ref, fv))
+			return
+		}
 		base, bxt, err := ee.tr(x.X)
 		if err != nil {
 			g.errorf("%s: modifies %s: %v", who, loc, err)
@@ -658,6 +678,64 @@ func (g *gen) havocLoc(n *node, e *env, st *State, loc Expr, who string) {
 		return
 	}
 	g.errorf("%s: unsupported modifies location %s", who, loc)
+}
+
+var unboxRe = regexp.MustCompile(`^\(as_\w+ \(mk_\w+ [0-9]+ (.*)\)\)$`)
+
+// pointeeTarget resolves what a pointer-typed contract expression points to: a struct field
+// (when the pointer was produced by taking a field's address) or a cell.
+func (g *gen) pointeeTarget(e *env, x Expr) (ref string, elem types.Type, fa *fieldAccess, err error) {
+	v, xt, err := e.tr(x)
+	if err != nil {
+		return "", nil, nil, err
+	}
+	t, ok := v.(string)
+	if !ok || xt.T == nil {
+		return "", nil, nil, fmt.Errorf("pointee of a non-pointer")
+	}
+	pt, ok := xt.T.Underlying().(*types.Pointer)
+	if !ok {
+		return "", nil, nil, fmt.Errorf("pointee of non-pointer type %s", xt.T)
+	}
+	if m := unboxRe.FindStringSubmatch(t); m != nil {
+		t = m[1]
+	}
+	if f, ok := g.fieldRefs[t]; ok {
+		return t, pt.Elem(), f, nil
+	}
+	return t, pt.Elem(), nil, nil
+}
+
+func (g *gen) havocPointee(n *node, e *env, st *State, x Expr, who string) {
+	ee := *e
+	ee.st = st
+	ref, elem, fa, err := g.pointeeTarget(&ee, x)
+	if err != nil {
+		g.errorf("%s: modifies pointee(%s): %v", who, x, err)
+		return
+	}
+	if fa != nil {
+		if lv, ok := g.localCell[fa.base+"#"+fa.field.Name()]; ok {
+			g.svFresh(st, lv, sortOf(fa.field.Type()))
+			return
+		}
+		name := fieldMapName(fa.structT, fa.field.Name())
+		srt := "(Array Ref " + sortOf(fa.field.Type()) + ")"
+		fv := g.c.fresh(name+".elt", sortOf(fa.field.Type()))
+		g.svAssign(n, st, name, srt, app("store", g.svGet(st, name, srt), fa.base, fv))
+		return
+	}
+	var lms []leafMap
+	g.leafMaps(elem, nil, &lms)
+	for _, lm := range lms {
+		r := refPath(ref, lm.path)
+		if lv, ok := g.localCell[r+"#"]; ok {
+			g.svFresh(st, lv, arrayElemSort(lm.sort))
+			continue
+		}
+		fv := g.c.fresh(lm.name+".elt", arrayElemSort(lm.sort))
+		g.svAssign(n, st, lm.name, lm.sort, app("store", g.svGet(st, lm.name, lm.sort), r, fv))
+	}
 }
 
 func arrayElemSort(s string) string {
@@ -725,7 +803,11 @@ func hasQuant(t string) bool { return strings.Contains(t, "(forall ") || strings
 
 // emitOpt: stripQ drops quantified assumptions (used for reachability/smoke queries, where
 // weakening the assumptions is sound for detecting contradictions among the rest).
-func (g *gen) emitOpt(strMode bool, stripQ bool) string {
+func (g *gen) emitOpt(strMode bool, stripQ bool) string { return g.emitFull(strMode, stripQ, nil) }
+
+// emitFull: noAssume lists obligations that are asserted but not assumed afterwards (used to
+// re-check the remaining obligations independently of ones that failed).
+func (g *gen) emitFull(strMode bool, stripQ bool, noAssume map[int]bool) string {
 	var sb strings.Builder
 	sb.WriteString("(set-option :produce-models true)\n(set-logic ALL)\n")
 	sb.WriteString(preludeCommon)
@@ -777,7 +859,7 @@ func (g *gen) emitOpt(strMode bool, stripQ bool) string {
 					continue
 				}
 				rest = implies(c.t, rest)
-			} else if c.obl.Kind == "smoke" || c.obl.Kind == "canary" || c.obl.Kind == "finding" {
+			} else if c.obl.Kind == "smoke" || c.obl.Kind == "canary" || c.obl.Kind == "finding" || noAssume[c.obl.idx] {
 				// meta-obligations are never turned into assumptions
 				rest = and(implies(fmt.Sprintf("chk%d", c.obl.idx), c.t), rest)
 			} else if stripQ && hasQuant(c.t) {
